@@ -50,7 +50,10 @@ class PyFormatter(Formatter):
     @override(Formatter)
     def format_docstring(self, *comments: str) -> List[str]:
         strings = ['"""']
-        strings.extend([comment for comment in comments])
+        # Escape backslashes and quotes, they may terminate the docstring.
+        strings.extend(
+            [comment.replace("\\", "\\\\").replace('"', '\\"') for comment in comments]
+        )
         strings.append('"""')
         return strings
 
